@@ -33,8 +33,44 @@ def spec_strategy(draw, lines=False):
         'src_delays': draw(sl.delays_strategy(3)),
         'fork_delays': [draw(sl.delays_strategy(3)) for _ in range(nforks)],
         'start_delays': [draw(st.sampled_from([0, 0, 0.001, 0.02])) for _ in range(nforks)],
+        'survivor': fail is not None and draw(st.booleans()),
         'sched': draw(sched_strategy(max_len=300 if lines else 150, est_steps=2500 if lines else 600, depth=4)),
     }
+
+
+class SurvivorSource:
+    """an iterator object (not a generator) that keeps working after it has raised: whoever pulls it again after the failure gets
+    the elements behind the failure point. The forks must all end with the failure, so nobody may pull again."""
+
+    def __init__(self, n, fail, delays):
+        self.n, self.fail, self.delays = n, fail, delays
+        self.i = 0
+        self.pulled = 0
+        self.failed = False
+        self.pulls_after_failure = 0
+
+    def __iter__(self):
+        return self
+
+    def __next__(self):
+        if self.failed:
+            self.pulls_after_failure += 1
+        i = self.i
+        d = self.delays[i % len(self.delays)]
+        if d > 0:
+            time.sleep(d)
+        if self.fail is not None and not self.failed and self.fail['at'] == min(i, self.n):
+            self.failed = True
+            self.i += 1
+            raise sl.make_exc(self.fail['exc'], self.fail['at'], 'source')
+        if i >= self.n + (1 if self.failed else 0) and not self.failed:
+            raise StopIteration
+        if self.failed and i > self.n + 3:
+            raise StopIteration
+        self.i += 1
+        if not self.failed:
+            self.pulled += 1
+        return i if not self.failed else 1000 + i
 
 
 def run_case(spec, lines=False):
@@ -42,7 +78,7 @@ def run_case(spec, lines=False):
 
     n = spec['n']
     nf = spec['nforks']
-    src = sl.Source(n, spec['fail'], spec['src_delays'])
+    src = SurvivorSource(n, spec['fail'], spec['src_delays']) if spec.get('survivor') else sl.Source(n, spec['fail'], spec['src_delays'])
     got = [[] for _ in range(nf)]
     ends = [None] * nf
     box = {'active': False, 'max_ahead': 0, 'bad': None, 'diverged': 0}
@@ -100,6 +136,8 @@ def run_case(spec, lines=False):
     for k in range(nf):
         if ends[k] != want_end:
             raise Violation('fork_ending', f'fork {k} ended with {ends[k]}, the source ended with {want_end} (all endings: {ends})', signature=['fork_ending', 'exhaustion_instead_of_error' if ends[k] == 'end' else 'other'])
+    if getattr(src, 'pulls_after_failure', 0):
+        raise Violation('pulled_after_failure', f'the source was pulled {src.pulls_after_failure} more time(s) after it had raised {want_end}', signature=['pulled_after_failure'])
     if src.pulled != n_ok:
         raise Violation('source_pulls', f'source produced {src.pulled} elements for a stream of {n_ok}', signature=['source_pulls'])
     if box['bad'] is not None:
